@@ -199,7 +199,7 @@ impl HttpStream for io::Sink {
     }
 }
 
-fn gen_boundary() -> String {
+pub(crate) fn gen_boundary() -> String {
     rand::rng()
         .sample_iter(rand::distr::Alphanumeric)
         .take(BOUNDARY_LEN)
